@@ -131,3 +131,215 @@ Qed.
 
 Theorem run_InvE k es : InvE (run repaired (init k) es).
 Proof. unfold run. apply fold_inv; [intros s e; apply step_InvE | intros [|c] x e H; discriminate]. Qed.
+
+(* ------------------------------------------------------------------ *)
+(* program points of an Access consumer across one section: unchanged, except for the return of its own callback and the
+   removeRef section of its own Release *)
+Definition Qkp (i n : nat) (k : ckind) (p0 : cpc) (l : list cons) : Prop :=
+  length l = n /\ ck (nth i l cons0) = k /\ cpcv (nth i l cons0) = p0.
+
+Lemma invoke_Qkp i n k p0 s r nt : Qkp i n k p0 (conss s) -> Qkp i n k p0 (conss (invoke s r nt)).
+Proof.
+  unfold Qkp. fold (getc s i) (getc (invoke s r nt) i). intros [H1 [H2 H3]]. destruct (invoke_cq s r nt i) as [E1 [E2 _]].
+  destruct (fp_invoke s r nt) as [_ [_ [F3 _]]]. split; [congruence|]. split; congruence.
+Qed.
+
+Lemma Qkp_set i n k p0 l c y : Qkp i n k p0 l -> (c = i -> ck y = k /\ cpcv y = p0) -> Qkp i n k p0 (set_nth l c y).
+Proof.
+  unfold Qkp. intros [H1 [H2 H3]] Hy. rewrite length_set_nth. split; [exact H1|].
+  destruct (Nat.lt_ge_cases c (length l)) as [Hl|Hl]; [|rewrite set_nth_oob by exact Hl; auto].
+  destruct (Nat.eq_dec i c) as [->|Hne]; [rewrite nth_set_nth_same by exact Hl; now apply Hy | rewrite nth_set_nth_other by exact Hne; auto].
+Qed.
+
+Lemma sect_pc_all s e i :
+  i < length (conss s) -> ck (getc s i) = CKAccess -> (forall c, e <> EConsStep c) ->
+  cpcv (getc (step repaired s e) i) = cpcv (getc s i) \/
+  ((exists res, e = ECbReturn i res) /\ is_cb (cpcv (getc s i)) = true) \/
+  (exists code, cpcv (getc s i) = CRel code /\ cpcv (getc (step repaired s e) i) = CAccRet code).
+Proof.
+  intros Hi Hk Hne.
+  assert (Keep : Qkp i (length (conss s)) CKAccess (cpcv (getc s i)) (conss s)) by (unfold Qkp; auto).
+  destruct e as [c0|k|r|a|g|a|g en|g v hr er|g|k|c0|c0|c0|c0 res|c0]; try (left; apply sect_pc_container; exact I); cbn [step].
+  - (* removeRef section *)
+    unfold release_section. destruct (nth_error (relacts s) a) as [x|]; [|now left]. destruct (ra_pc x); [|now left].
+    set (s1 := remove_ref _ (ra_ref x)).
+    assert (H1 : Qkp i (length (conss s)) CKAccess (cpcv (getc s i)) (conss s1)) by (apply (Q_remove_ref _ (invoke_Qkp i _ _ _)); exact Keep).
+    unfold Qkp in H1. fold (getc s1 i) in H1. destruct H1 as [L1 [K1 P1]].
+    destruct (ra_cons x) as [c1|]; [|now left]. destruct (cpcv (getc s1 c1)) eqn:Ec; try (now left).
+    change (set_conss s1 (set_nth (conss s1) c1 ?y)) with (setc s1 c1 y).
+    destruct (Nat.eq_dec i c1) as [<-|Hn1].
+    + right. right. exists e. rewrite <- P1, Ec. split; [reflexivity|]. rewrite getc_setc, Nat.eqb_refl by lia. rewrite K1. reflexivity.
+    + left. rewrite getc_setc_other by exact Hn1. exact P1.
+  - (* a new consumer *)
+    left. unfold start_consumer. set (s0 := set_conss s _).
+    assert (K0 : Qpc i (cpcv (getc s i)) (conss s0)) by (unfold Qpc, s0; cbn [conss set_conss]; now rewrite app_nth1).
+    match goal with |- context [add_ref repaired s0 ?kk] => pose proof (Q_add_ref _ (invoke_Qpc i _) s0 kk K0) as H1 end.
+    exact H1.
+  - exfalso. exact (Hne c0 eq_refl).
+  - left. destruct (nth_error (conss s) c0) as [x|] eqn:Ex; [|reflexivity].
+    destruct (getc_nth_error s c0 x Ex) as [Eg Hl]. rewrite getc_setc by exact Hl. destruct (Nat.eqb_spec i c0) as [->|]; [now rewrite Eg | reflexivity].
+  - left. unfold fire_section. destruct (nth_error (conss s) c0) as [x|] eqn:Ex; [|reflexivity]. destruct (ww_firepc x) as [[|]|]; try reflexivity.
+    assert (K0 : Qpc i (cpcv (getc s i)) (conss (setc s c0 (with_fire x (S (ww_fired x)) (Some RDone))))).
+    { rewrite conss_setc. apply Qpc_set; [reflexivity|]. intros ->. now rewrite (getc_x s i x Ex). }
+    exact (Q_remove_ref _ (invoke_Qpc i _) _ (cref x) K0).
+  - (* a callback returns *)
+    destruct (Nat.eq_dec i c0) as [->|Hn0]; [|left; now rewrite cb_return_other].
+    destruct (is_cb (cpcv (getc s c0))) eqn:Ecb; [right; left; split; [eauto | reflexivity]|]. left.
+    unfold cb_return. destruct (nth_error (conss s) c0) as [x|] eqn:Ex; [|reflexivity].
+    rewrite (getc_x s c0 x Ex) in Ecb, Hk. rewrite Hk. destruct (cpcv x); try reflexivity. discriminate Ecb.
+Qed.
+
+(* ------------------------------------------------------------------ *)
+(* sections that only ever say "gone" *)
+Section GonePres.
+  Variable Q : list cons -> Prop.
+  Hypothesis Qgone : forall s r, Q (conss s) -> Q (conss (invoke s r NGone)).
+
+  Lemma G_cbs_fold rs : forall s, Q (conss s) -> Q (conss (fold_left (cbs_fold NGone) rs s)).
+  Proof.
+    induction rs as [|r rs IH]; intros s H; [exact H|]. cbn [fold_left]. apply IH. unfold cbs_fold.
+    destruct (rin (nth r (refs s) ref0)); [now apply Qgone | exact H].
+  Qed.
+
+  Lemma G_clear_resolved s : Q (conss s) -> Q (conss (clear_resolved s)).
+  Proof.
+    intros H. unfold clear_resolved. set (s1 := if resolved s then _ else s).
+    assert (H1 : Q (conss s1)) by (unfold s1; destruct (resolved s); [rewrite call_cbs_fold; apply G_cbs_fold; exact H | exact H]).
+    set (s2 := set_rcancel (cancel_g s1 (rcancel s1)) None).
+    assert (E : conss s2 = conss s1) by (unfold s2; cbn [conss set_rcancel]; apply conss_cancel_g).
+    destruct (vrel s2); [change (Q (conss s2))|]; now rewrite E.
+  Qed.
+
+  Lemma G_start_resolve s : Q (conss s) -> Q (conss (start_resolve s)).
+  Proof.
+    intros H. unfold start_resolve. assert (H1 : Q (conss (shutdown s))) by (unfold shutdown; now apply G_clear_resolved).
+    set (s1 := shutdown s) in *. destruct (Nat.eqb (kctx s1) 0 || Nat.eqb (nrefs s1) 0); exact H1.
+  Qed.
+
+  Lemma G_remove_ref s r : Q (conss s) -> Q (conss (remove_ref s r)).
+  Proof.
+    intros H. unfold remove_ref. destruct (nth_error (refs s) r) as [x|]; [|exact H]. destruct (rin x); [|exact H].
+    set (s1 := set_refs s _). assert (H1 : Q (conss s1)) by exact H.
+    destruct (Nat.eqb (nrefs s1) 0 && _); [unfold shutdown; now apply G_clear_resolved | exact H1].
+  Qed.
+
+  Lemma G_released_section s n : Q (conss s) -> Q (conss (released_section s n)).
+  Proof. intros H. unfold released_section. destruct (Nat.eqb (nonce s) n); [now apply G_start_resolve | exact H]. Qed.
+End GonePres.
+
+(* a reference callback that belongs to another consumer (or to none) does not touch consumer i *)
+Lemma invoke_other s r n i :
+  (forall c, cons_of_kind (rkind (nth r (refs s) ref0)) = Some c -> c <> i) -> getc (invoke s r n) i = getc s i.
+Proof.
+  intros Hk. unfold invoke. destruct (nth_error (refs s) r) as [x|] eqn:E; [|reflexivity].
+  rewrite (nth_error_nth_d _ _ ref0 _ E) in Hk.
+  destruct (rkind x) as [| | |c|c|c] eqn:K; cbn [cons_of_kind] in Hk.
+  - reflexivity.
+  - apply getc_set_last.
+  - destruct n; [apply getc_set_last|]. change (getc (set_asyncs ?a ?b) i) with (getc a i). apply getc_set_last.
+  - rewrite getc_setc_other by (intros Ei; exact (Hk c eq_refl (eq_sym Ei))). apply getc_set_last.
+  - destruct (cb_wwr (getc (set_last s r n) c) n (nonce (set_last s r n))) as [y fired].
+    destruct fired; [destruct (rflag x)|]; rewrite getc_setc_other by (intros Ei; exact (Hk c eq_refl (eq_sym Ei))); try apply getc_set_last.
+  - rewrite getc_setc_other by (intros Ei; exact (Hk c eq_refl (eq_sym Ei))). apply getc_set_last.
+Qed.
+
+Definition Qgn (i : nat) (a0 : bool * nat * nat * nat * nat * bool) (l : list cons) : Prop :=
+  acf (nth i l cons0) = a0 \/ ac_res (nth i l cons0) = false.
+
+Lemma Qgn_gone i a0 s r : Qgn i a0 (conss s) -> Qgn i a0 (conss (invoke s r NGone)).
+Proof.
+  unfold Qgn. fold (getc s i) (getc (invoke s r NGone) i). intros H.
+  destruct (invoke_acf s r NGone i) as [E|E]; [destruct (acf_fields _ _ E) as [E1 _]; rewrite E, E1; exact H|].
+  destruct (acf_fields _ _ E) as [E1 _]. unfold cb_access in E, E1.
+  destruct (Bool.eqb false (ac_res (getc s i)) && Nat.eqb 0 (ac_val (getc s i)) && Nat.eqb 0 (ac_err (getc s i))).
+  - rewrite E, E1. exact H.
+  - right. exact E1.
+Qed.
+
+Lemma Qgn_acf i a0 l l' : acf (nth i l' cons0) = acf (nth i l cons0) -> Qgn i a0 l -> Qgn i a0 l'.
+Proof. unfold Qgn. intros E. destruct (acf_fields _ _ E) as [E1 _]. now rewrite E, E1. Qed.
+
+Lemma Qgn_add_ref i a0 s k :
+  (forall c, cons_of_kind k = Some c -> c <> i) -> Qgn i a0 (conss s) -> Qgn i a0 (conss (add_ref repaired s k)).
+Proof.
+  intros Hk H. unfold add_ref. set (s1 := set_refs s _). assert (H1 : Qgn i a0 (conss s1)) by exact H.
+  destruct (Nat.eqb (nrefs s1) 1 && negb (resolved s1)); [apply (G_start_resolve _ (Qgn_gone i a0)); exact H1|].
+  destruct (resolved s1); [|exact H1].
+  assert (Inv : Qgn i a0 (conss (invoke s1 (length (refs s)) (NRes (value s1) (verr s1))))).
+  { apply (Qgn_acf i a0 (conss s1)); [|exact H1]. fold (getc s1 i) (getc (invoke s1 (length (refs s)) (NRes (value s1) (verr s1))) i).
+    rewrite invoke_other; [reflexivity|]. unfold s1. cbn [refs set_refs]. rewrite app_nth2 by lia. rewrite Nat.sub_diag. cbn [nth rkind]. exact Hk. }
+  destruct k; cbn [fx_nilcb repaired]; try exact H1; exact Inv.
+Qed.
+
+(* a section that is not a store section leaves the Access bookkeeping of consumer i alone, or has told it "gone" *)
+Lemma sect_acf s e i :
+  i < length (conss s) -> (forall c, e <> EConsStep c) -> (forall g, e <> EStore g) ->
+  acf (getc (step repaired s e) i) = acf (getc s i) \/ ac_res (getc (step repaired s e) i) = false.
+Proof.
+  intros Hi Hne Hns. set (a0 := acf (getc s i)).
+  assert (H : Qgn i a0 (conss s)) by (left; reflexivity).
+  change (Qgn i a0 (conss (step repaired s e))).
+  pose proof (Qgn_gone i a0) as QG.
+  destruct e as [c0|k|r|a|g|a|g en|g v hr er|g|k|c0|c0|c0|c0 res|c0]; cbn [step].
+  - unfold set_context. destruct (Nat.eqb (kctx s) c0); [exact H|]. cbn [fst]. now apply (G_start_resolve _ QG).
+  - apply Qgn_add_ref; [|exact H]. intros c Hc. destruct k as [|[|k]]; discriminate.
+  - destruct (rkind (nth r (refs s) ref0)); try exact H; unfold release_call; now rewrite conss_release_call_by.
+  - unfold release_section. destruct (nth_error (relacts s) a) as [x|]; [|exact H]. destruct (ra_pc x); [|exact H].
+    set (s1 := remove_ref _ (ra_ref x)). assert (H1 : Qgn i a0 (conss s1)) by (apply (G_remove_ref _ QG); exact H).
+    destruct (ra_cons x) as [c|]; [|exact H1]. destruct (cpcv (getc s1 c)) eqn:Ec; try exact H1.
+    cbn [conss set_conss]. apply (Qgn_acf i a0 (conss s1)); [|exact H1].
+    destruct (Nat.lt_ge_cases c (length (conss s1))) as [Hl|Hl]; [|now rewrite set_nth_oob].
+    destruct (Nat.eq_dec i c) as [->|Hn]; [rewrite nth_set_nth_same by exact Hl; reflexivity | now rewrite nth_set_nth_other].
+  - destruct (nth_error (gs s) g); [now apply (G_released_section _ QG) | exact H].
+  - unfold async_section. destruct (nth_error (asyncs s) a) as [x|]; [|exact H]. destruct (as_pc x); [|exact H].
+    now apply (G_released_section _ QG).
+  - now rewrite conss_proceed.
+  - unfold resolver_return. destruct (nth_error (gs s) g) as [x|]; [|exact H]. destruct (gpcv x); exact H.
+  - exfalso. exact (Hns g eq_refl).
+  - unfold start_consumer. apply Qgn_add_ref.
+    + intros c Hc. assert (c = length (conss s)) by (destruct k as [|[|k]]; cbn in Hc; congruence). lia.
+    + cbn [conss set_conss]. unfold Qgn. rewrite app_nth1 by exact Hi. exact H.
+  - exfalso. exact (Hne c0 eq_refl).
+  - destruct (nth_error (conss s) c0) as [x|] eqn:Ex; [|exact H]. rewrite conss_setc. apply (Qgn_acf i a0 (conss s)); [|exact H].
+    destruct (getc_nth_error s c0 x Ex) as [Eg Hl]. destruct (Nat.eq_dec i c0) as [->|Hn]; [rewrite nth_set_nth_same by exact Hl; fold (getc s c0); now rewrite Eg | now rewrite nth_set_nth_other].
+  - unfold fire_section. destruct (nth_error (conss s) c0) as [x|] eqn:Ex; [|exact H]. destruct (ww_firepc x) as [[|]|]; try exact H.
+    apply (G_remove_ref _ QG). rewrite conss_setc. apply (Qgn_acf i a0 (conss s)); [|exact H].
+    destruct (getc_nth_error s c0 x Ex) as [Eg Hl]. destruct (Nat.eq_dec i c0) as [->|Hn]; [rewrite nth_set_nth_same by exact Hl; fold (getc s c0); now rewrite Eg | now rewrite nth_set_nth_other].
+  - apply (Qgn_acf i a0 (conss s)); [|exact H]. apply map_acf_nth. apply (cfd_cb_return acf); reflexivity.
+  - destruct (Nat.eqb c0 0); [exact H|]. destruct (cancel_root_frame s c0) as [_ [_ [E _]]]. now rewrite E.
+Qed.
+
+(* ------------------------------------------------------------------ *)
+(* the eager schedule, seen from one Access consumer *)
+Definition aloop (x y : cons) : Prop :=
+  if negb (Nat.eqb (ac_err x) 0) then cpcv y = CRel (ac_err x) \/ cpcv y = CAccRet (ac_err x)
+  else if ac_res x then cpcv y = CAccCb (ac_val x) /\ ac_cbcanc y = false /\ ac_nonce y = ac_snap y
+  else if ccanc x then cpcv y = CRel 1 \/ cpcv y = CAccRet 1
+  else cpcv y = CAccWait /\ ac_nonce y = ac_snap y.
+
+Lemma settle_acc s i : i < length (conss s) -> ck (getc s i) = CKAccess ->
+  ck (getc (settle s) i) = CKAccess /\ cref (getc (settle s) i) = cref (getc s i) /\ ccanc (getc (settle s) i) = ccanc (getc s i) /\
+  match cpcv (getc s i) with
+  | CBlocked => aloop (getc s i) (getc (settle s) i)
+  | CAccWait => if Nat.eqb (ac_nonce (getc s i)) (ac_snap (getc s i))
+                then (if ccanc (getc s i) then cpcv (getc (settle s) i) = CRel 1 \/ cpcv (getc (settle s) i) = CAccRet 1 else getc (settle s) i = getc s i)
+                else aloop (getc s i) (getc (settle s) i)
+  | _ => getc (settle s) i = getc s i
+  end.
+Proof.
+  intros Hi Hk. pose proof (settle_vw s) as V.
+  assert (V1 : ck (getc (settle s) i) = ck (getc s i)) by (apply (map_nth_getc ck s (settle s) i); exact (f_equal v_ck V)).
+  assert (V2 : cref (getc (settle s) i) = cref (getc s i)) by (apply (map_nth_getc cref s (settle s) i); exact (f_equal v_cref V)).
+  assert (V3 : ccanc (getc (settle s) i) = ccanc (getc s i)) by (apply (map_nth_getc ccanc s (settle s) i); exact (f_equal v_ccanc V)).
+  split; [congruence|]. split; [exact V2|]. split; [exact V3|].
+  destruct (settle_getc s i Hi) as [sX [A [B C]]]. rewrite C.
+  assert (Hx : nth_error (conss sX) i = Some (getc s i)) by (rewrite <- A; apply nth_error_getc; lia).
+  assert (Idle : (match cpcv (getc s i) with CBlocked | CAccWait => False | _ => True end) -> cons_step sX i = sX).
+  { intros Hp. unfold cons_step. rewrite Hx, Hk. destruct (cpcv (getc s i)); try reflexivity; contradiction. }
+  destruct (cpcv (getc s i)) eqn:Ep; try (rewrite Idle by exact I; exact A).
+  - exact (access_loop_step sX i _ Hx Hk (or_introl Ep)).
+  - destruct (Nat.eqb_spec (ac_nonce (getc s i)) (ac_snap (getc s i))) as [En|En].
+    + destruct (ccanc (getc s i)) eqn:Ec; [exact (access_wait_cancelled sX i _ Hx Hk Ep En Ec)|].
+      unfold cons_step. rewrite Hx, Hk, Ep, En, Nat.eqb_refl, Ec. cbn [negb]. exact A.
+    + exact (access_loop_step sX i _ Hx Hk (or_intror (conj Ep En))).
+Qed.
